@@ -47,7 +47,10 @@ def base_scenario(cls, rng, k=0, nx=2, nyh=3, shape=None):
         )
         fm = B.surf_mesh(rec, rng)
         if cls["span"] == "half":
-            mesh = B.half_of(fm, cls["side"])
+            sd = cls["side"]
+            if sd == "M":  # mixed: surfaces alternately described by their left and by their right half
+                sd = "LR"[(i + k) % 2]
+            mesh = B.half_of(fm, sd)
         else:
             mesh = fm
         surfs.append(
